@@ -185,10 +185,14 @@ def arith(it, opn, a, b, node):
         sa_, sb_ = getattr(a, "space", None), getattr(b, "space", None)
         if sa_ is not None and sb_ is not None and not sa_.same(sb_) and opn not in ("and", "or"):
             it.record("space-mismatch", "arith", [a, b], {}, node, {"left": sa_, "right": sb_})
+        check_labels(it, "arith", a, b, node)
         t = mk(opn, a.term, b.term)
         axes = imgdom.bcast_axes(getattr(a, "axes", None), getattr(b, "axes", None))
         if isinstance(a, Val) and isinstance(b, Val) or axes is not None:
             r = Val(t, space=_space(a, b), series=getattr(a, "series", False) or getattr(b, "series", False))
+            lab_ = getattr(a, "lab", None) or getattr(b, "lab", None)
+            if lab_ is not None:
+                r.lab = lab_
             if axes is not None:
                 r.axes = axes
             r.fresh = True
@@ -206,6 +210,7 @@ def arith(it, opn, a, b, node):
 
 def frame_arith(it, opn, a, b, node):
     if isinstance(a, Frame) and isinstance(b, Frame):
+        check_labels(it, "arith", a, b, node)
         if a.order is not None and b.order is not None and set(a.order) == set(b.order):
             f = a.clone()
             f.cols = {k: mk(opn, a.cols[k], b.cols[k]) for k in a.order}
@@ -399,6 +404,11 @@ def getattr_(it, base, attr, node, fr):
         return Method(base, attr)
     if isinstance(base, Val):
         if attr in ("values", "real"):
+            if getattr(base, "lab", None) is not None:
+                import copy as _copy
+                r_ = _copy.copy(base)  # the bare array of a column: no row labels any more
+                r_.lab = None
+                return r_
             return base
         if attr in ("loc", "iloc", "at", "iat"):
             return Indexer(base, attr)
@@ -493,10 +503,44 @@ def fcol(frame, name):
     return t
 
 
+def label_key(v):
+    """row labels of a pandas object (E11): None = unlabelled (array / scalar / single row); ("empty", None) = a table without
+    rows, which adopts the labels of the first column stored into it; otherwise (kind, family) with kind "pos" = RangeIndex
+    0..n-1, "tok" = labels not known to be 0..n-1, and family = the label family (shared by copies, selections and sorts of one
+    table; renewed by reset_index and by constructing a new table)"""
+    if isinstance(v, Frame):
+        if v.row:
+            return None
+        if (getattr(v, "is_empty", False) or getattr(v, "labels_adopt", False)) and not getattr(v, "adopted", False):
+            return ("empty", None)
+        return ("pos" if v.labels_positional else "tok", v.lab_root)
+    return getattr(v, "lab", None)
+
+
+def same_labels(a, b):
+    """label alignment pairs the rows the code means iff both objects carry labels of one family (then equal labels are the same
+    original row) or both are numbered 0..n-1"""
+    if a is None or b is None or a[0] == "empty" or b[0] == "empty":
+        return True
+    if a[1] is b[1]:
+        return True
+    return a[0] == "pos" and b[0] == "pos"
+
+
+def check_labels(it, what, a, b, node):
+    """pandas aligns labelled operands on their row labels, not on row position"""
+    ka, kb = label_key(a), label_key(b)
+    if ka is None or kb is None or ka[0] == "empty" or kb[0] == "empty":
+        return
+    it.record("label-align", what, [a, b], {}, node, {"left": ka, "right": kb, "same": same_labels(ka, kb)})
+
+
 def series_of(frame, name):
     v = Val(fcol(frame, name), space=frame.space, series=not frame.row)
     v.of_frame = frame
     v.colname = name
+    if not frame.row:
+        v.lab = label_key(frame)
     return v
 
 
@@ -958,6 +1002,14 @@ def _bcast_cols(value, n, node):
 
 def store_cols(it, f, names, value, node, mask=None):
     terms_ = _bcast_cols(value, len(names), node)
+    kv_ = label_key(value)
+    if kv_ is not None and not f.row:
+        if label_key(f) == ("empty", None):
+            f.adopted = True  # a table without rows takes over the labels of the first column stored into it
+            f.labels_positional = kv_[0] == "pos"
+            f.lab_root = kv_[1]
+        else:
+            check_labels(it, "store", f, value, node)
     vs = getattr(value, "space", None)
     if vs is not None and f.space is not None and not vs.same(f.space) and not f.row:
         it.record("space-mismatch", "store", [f, value], {}, node, {"frame_space": f.space, "value_space": vs, "names": list(names)})
